@@ -4,6 +4,7 @@ import (
 	"bytes"
 	"errors"
 	"io"
+	stdslog "log/slog"
 	"os"
 	"fmt"
 	"strings"
@@ -20,6 +21,9 @@ func init() {
 }
 
 var errProbe = errors.New("probe error")
+
+// c11handlers: the log/slog handler last built on a logger of the current tree.
+var c11handlers = map[*slog.Entry]stdslog.Handler{}
 
 // c11w is the monitored destination every logger of a C11 tree writes to.
 var c11w io.Writer
@@ -118,6 +122,25 @@ func modeAlphabet(full bool) []modeCall {
 			set("SetLevel SetAttrs SetTimeFormat", func(t *slog.Entry) *slog.Entry {
 				return t.SetLevel(slog.AlwaysLevel).SetAttrs(slog.Int("x", 1)).SetTimeFormat("15:04:05")
 			}, func(s Format) Format { return s }),
+			// WithSkip(n) keeps one child per n: the second call returns the child made by the first, whose format is its
+			// own by then (handing it out again is not a mode call)
+			with("WithSkip(1)", func(t *slog.Entry) *slog.Entry { return t.WithSkip(1) }, func(s Format) Format { return s }),
+			// a log/slog handler built on the logger applies its options (a mode call like any other) ...
+			set("NewSlogHandler(JSON)", func(t *slog.Entry) *slog.Entry {
+				c11handlers[t] = slog.NewSlogHandler(t, &slog.HandlerOptions{JSON: true, NoSource: true, Level: slog.PanicLevel})
+				return t
+			}, func(Format) Format { return FJSON }),
+			set("NewSlogHandler(NoColor)", func(t *slog.Entry) *slog.Entry {
+				c11handlers[t] = slog.NewSlogHandler(t, &slog.HandlerOptions{NoColor: true, NoSource: true, Level: slog.PanicLevel})
+				return t
+			}, func(Format) Format { return FLogfmt }),
+			// ... once, when it is built: records that go through it later are not mode calls
+			set("log through the handler built earlier", func(t *slog.Entry) *slog.Entry {
+				if h := c11handlers[t]; h != nil {
+					stdslog.New(h).Warn("through the log/slog handler", "k", 1)
+				}
+				return t
+			}, func(s Format) Format { return s }),
 			with("WithJSONMode(true,false)", func(t *slog.Entry) *slog.Entry { return t.WithJSONMode(true, false) }, jsonNext(false)),
 		)
 	}
@@ -144,6 +167,7 @@ type c11step struct {
 // c11run executes one sequence on a fresh three-logger tree and checks getters and probe shapes of every logger after every call.
 func c11run(c *Ctx, idx int, log *mon.Log, w mon.W, alpha []modeCall, steps []c11step) bool {
 	c11w = w
+	c11handlers = map[*slog.Entry]stdslog.Handler{}
 	root := newRoot("root", FColor, w, slog.AlwaysLevel)
 	a := root.New("a")
 	b := a.New("b")
@@ -158,7 +182,14 @@ func c11run(c *Ctx, idx int, log *mon.Log, w mon.W, alpha []modeCall, steps []c1
 		t := loggers[st.target]
 		hist = append(hist, fmt.Sprintf("%s@%d", mc.name, st.target))
 		aff, created := mc.do(t, si)
-		if created {
+		known := false
+		for _, l := range loggers {
+			known = known || l == aff
+		}
+		if created && known {
+			// the call handed out a logger that exists already (WithSkip keeps one child per count): nothing changes
+			created = false
+		} else if created {
 			aff.SetWriter(w).SetErrorWriter(w).SetLevel(slog.AlwaysLevel)
 			loggers = append(loggers, aff)
 			state = append(state, mc.next(state[st.target]))
